@@ -20,7 +20,7 @@ func init() { props["C09"] = runC09 }
 type hopSite struct {
 	name   string
 	mk     func() mangos.ProtocolBase
-	cooked bool // rep/respondent: header observed through the reply
+	cooked bool   // rep/respondent: header observed through the reply
 	kind   string // "bt" (backtrace words) | "pair1" | "star"
 }
 
